@@ -74,7 +74,7 @@ func checkArithAt(s string, pre int, st *Stats, fresh ...bool) error {
 		// the reader exists before its file gets its place behind another file
 		f := newFileOwned("f", []byte(s))
 		rd := text.NewReader(f)
-		ctx = parsley.NewContext(parsley.NewFileSet(text.NewFile("pre", []byte(strings.Repeat("x", pre))), f), rd)
+		ctx = parsley.NewContext(parsley.NewFileSet(text.NewFile("pre", []byte(strings.Repeat("x", pre))), f, text.NewFile("post", []byte("y"))), rd)
 		if st != nil {
 			st.Class("reader created before the file was placed")
 		}
